@@ -174,3 +174,57 @@ def _d(prog):
 
 KIND_TESTS["L"] = _l
 KIND_TESTS["D"] = _d
+
+
+def _f(prog):
+    from rules.props.c09 import accumulated_fields
+    out = []
+    for name, complete in (("fga::good_merge", True), ("fga::bad_merge", False)):
+        acc = accumulated_fields(prog.need(name), "fga::Entry")
+        out.append(("F", name, (acc == {"len", "bytes", "on_disk_bytes"}) == complete and bool(acc)))
+    return out
+
+
+def _g(prog):
+    vocab = ("len", "bytes", "on_disk_bytes")
+    enc = E.codec_skeleton(prog.hir["fga::encode"]["body"], "w")
+    out = []
+    for name, agree in (("fga::good_decode", True), ("fga::bad_decode_swapped", False)):
+        dec = E.codec_skeleton(prog.hir[name]["body"], "r")
+        ok, _msg = E.compare_skeletons(enc, dec, vocab)
+        out.append(("G", name, ok == agree and len(enc) == 3 and len(dec) == 3))
+    return out
+
+
+def _a(prog):
+    from rules.report import Report
+    from rules.props.c09 import rule_a
+    R = Report("FIX", "quick")
+    # the crate-wide census floor does not apply to the tiny fixtures crate: count violations by key
+    import rules.props.c09 as c09
+    r = None
+    try:
+        rule_a(prog, R, "A")
+    except Exception:
+        pass
+    keys = [v["key"] for v in R.violations]
+    bad = any("fga::bad_call_swapped" in k and "Entry::new" in k for k in keys)
+    good = not any("fga::good_call" in k for k in keys)
+    return [("A", "fga::bad_call_swapped", bad), ("A", "fga::good_call", good)]
+
+
+def _h(prog):
+    # structured guards: the unlink in k::Inner::drop is guarded, the one in BadInner::drop is not
+    out = []
+    for name, guarded in (("<k::Inner as std::ops::Drop>::drop", True), ("<k::BadInner as std::ops::Drop>::drop", False)):
+        h = prog.hir[name]["body"]
+        sites = E.hir_sites(h, lambda n: n.get("k") == "call" and n.get("p") == "std::fs::remove_file")
+        ok = bool(sites) and all(any("is_deleted" in g for g in s.guard_texts()) for s in sites)
+        out.append(("H", name, ok == guarded))
+    return out
+
+
+KIND_TESTS["F"] = _f
+KIND_TESTS["G"] = _g
+KIND_TESTS["A"] = _a
+KIND_TESTS["H"] = _h
